@@ -11,10 +11,13 @@
 -/
 import ScalesModel.Core.Run
 import ScalesModel.Adapter.Async
+import ScalesModel.Adapter.Heap
 open Scales
 
 def components : List Comp := [
-  ⟨"async", Scales.Async.comp.run⟩
+  ⟨"async", Scales.Async.comp.run⟩,
+  ⟨"heap3", (Scales.Heap.comp 3).run⟩,
+  ⟨"heap4", (Scales.Heap.comp 4).run⟩
 ]
 
 structure CaseAcc where
